@@ -66,8 +66,8 @@ CLAIMS.update({
    ref="DESIGN.md section 4 C11"),
  "C20": dict(
    technique="normal forms of the grids' index arithmetic (LF engine) with sibling agreement across uspg_abstract/uspg_3d/uspg_4d instantiations; arithmetic-width rule",
-   text="Decides for every instantiated grid class: every voxel flattening is x + y*nx + z*nx*ny with axis-consistent indices and computed in size_t (as is the total voxel count); every quantisation is floor((coord - min_axis)/voxel_size) of the matching axis; update_dimensions assigns counts, origin and extent axis-consistently and sizes the storage with nx*ny*nz; get_grid_content visits [0,n) and get_neighborhood [i-1,i+2) clamped, per axis.",
-   note="The behaviour of points exactly on the box boundary under floating point (absolute-epsilon padding: nb = ceil((max+eps-min)/size) can equal the index of max) is value-level and NOT decided here; it is the heart of C20 and is stated as not decided.",
+   text="Decides for every instantiated grid class: every voxel flattening is x + y*nx + z*nx*ny with axis-consistent indices and computed in size_t (as is the total voxel count); every quantisation is floor((coord - min_axis)/voxel_size) of the matching axis; update_dimensions assigns counts, origin and extent axis-consistently and sizes the storage with nx*ny*nz; get_grid_content visits [0,n) and get_neighborhood [i-1,i+2) clamped, per axis; every quantised coordinate anywhere in the product (grid classes, store_face_in_uspg, the contact look-ups) is limited to the last voxel of its axis before it addresses a voxel - the count is ceil(extent/size), so floor((max-min)/size) is one past the end whenever the extent is a multiple of the voxel size (found D20, repaired) - or is the open end of a range closed by a limited index, or a node position that the positive box padding keeps inside; the region grid of the polarizer, whose ray marching steps to the next voxel without a bounds test, extends two voxel sizes beyond the node extrema.",
+   note="Decided in real arithmetic on the expression forms; floating-point rounding of the quotient itself (a coordinate within one ulp below a voxel boundary) is not modelled. Geometric completeness of the 27-voxel neighbourhood follows from the loop ranges plus the quantisation form and is argued in DESIGN, not mechanised.",
    ref="DESIGN.md section 4 C20"),
 })
 
